@@ -529,6 +529,9 @@ def main():
             fn = confirm_listing
         elif lab.startswith("O"):
             fn = confirm_order
+        elif lab.startswith("A1"):
+            import c07
+            fn = c07.confirm_ranges
         elif lab.startswith("T"):
             fn = confirm_type
         elif lab.startswith("B"):
@@ -543,7 +546,7 @@ def main():
         reproduced, detail = fn(H, lab, rec["case"])
         print(("REPRODUCED: " if reproduced else "NOT REPRODUCED: ") + detail)
         return 1 if reproduced else 0
-    only = os.environ.get("C15_PARTS", "LTSUOB")
+    only = os.environ.get("C15_PARTS", "LTSUOB")   # "A" (ranges after re-association) is experimental: see DESIGN.md 7, S-C15-04
 
     def run(name, mk, confirm_fn, classify_fn=None, prefixes=None):
         t0 = time.time()
@@ -578,6 +581,12 @@ def main():
         n9 = 3 if quick else 4
         run("unexpected-symbol diagnostics (C09 exploration, %d characters)" % n9, c09.make_factory(H, n9, first, last), c09.confirm, prefixes=("T2.error-range",))
         H.bounds["unexpected symbols"] = "texts of %d code points" % n9
+    if "A" in only and not H.worker:
+        # ranges after re-association (what type errors on chains point at)
+        import c07
+        c07.validate(H, 30 if quick else 100)
+        c07.run_reassociation(H, 4 if quick else 5, range_label="A1.re-associated-node-spans-its-operands")
+        H.bounds["re-association ranges"] = "application, * /, + - chains of at most %d operands with parentheses and unary minus: every chain node of the re-associated tree spans its two operands (or keeps the range of the parenthesised expression)" % (4 if quick else 5)
     if "O" in only:
         # definition-order diagnostics: the excerpt is the definition the message names
         import c13
